@@ -15,6 +15,10 @@ CHECKS = {
    "rapid-generated hint/code streams through the real source-map filter under random chunkings checked against a reference line/column scan and an independent VLQ decoder; whitespace removal must keep hints and tokens; generated throw-site programs (plain and minified) whose Node stack frames are resolved through the emitted map to the throwing statement",
    "hint bytes are produced by the real encoder through verif-tagged hooks; generated columns are compared in bytes; Node's stack trace format is trusted",
    "property-based testing against a reference model (rapid) + differential stack-frame resolution on generated programs"),
+ "C18": ("exploration",
+   "rapid-generated package directories (build-constraint expressions, legacy +build lines, file-name suffixes, cgo and .inc.js files, -tags sets) whose selected files are compared with an independent evaluator of the documented rules; a subset is compiled and run with self-registering files; the GOROOT packages are checked as a fixed corpus under js/wasm",
+   "go/build/constraint is trusted to parse expressions; tag predicate and file-name rule are transcribed from the documentation; known OS/arch lists are those of the installed Go",
+   "property-based testing against an independent reference evaluator (rapid)"),
 }
 PENDING_REASON = "check not built yet in this session (work in progress; see DESIGN.md §8 for the order)"
 props=[json.loads(l)['id'] for l in open('/verif/properties.jsonl')]
